@@ -82,3 +82,5 @@ func (w *World) ReapCalls() {
 		synctest.Wait()
 	}
 }
+
+func bgCtx() context.Context { return context.Background() }
